@@ -13,10 +13,14 @@ cut list, restore API per generation, state transport per generation, threads, .
 replay is exact (threaded cases: best effort, the interleaving is the OS's).
 
 Mechanism keys are derived from the case class (source kind / nesting, generation of the
-restore, ignored source error before the cut, threads) plus a coarse symptom. The three
-defects that were already known carry a *signature* (what exactly the defective position
-arithmetic predicts); a failure in the same class that does not match the signature gets a
-different key.
+restore, ignored source error before the cut, threads, stage of the aggregate, slices,
+second restore from one checkpoint object) plus a coarse symptom. The triaged genuine
+defects carry a *signature* (what exactly the defective position / state handling
+predicts, e.g. "restore #r starts at the last cut c_r instead of c_1+..+c_r", "the restore
+is faithful to the captured positions but those are ahead of the deliveries", "the wrong
+keys all belong to a non-final stage and still hold their checkpoint value"); a failure in
+the same class that does not match the signature gets a different key. Every violation is
+counted (`viol:<key>` counters); three literal witnesses per class and chunk are kept.
 """
 
 from __future__ import annotations
@@ -49,8 +53,11 @@ RULE = (
     'case. Not exhaustive: '
     'other containers (rotating), checkpoints taken after StopIteration, ignore_error '
     'sources (all single and pair failing-index sets for n <= 6/8, one cut), '
-    'MultiplexIterator over 2-3 sources, pipelines (7 shapes x 2 aggregator modes over a '
-    'fixed source list, all single cuts, all cut pairs for short streams), threads '
+    'MultiplexIterator over 2-3 sources, pipelines (10 shapes: single / named / no '
+    'aggregate / 2- and 3-stage chains with the aggregate in the last, the first, or '
+    'several stages / sliced aggregates with add_slice, x 2 aggregator modes over a '
+    'fixed source list, all single cuts, all cut pairs for short streams, a subset of '
+    'cut triples), two restores from one checkpoint object (double_restore), threads '
     '(seeded random (source, k, cut, sleep) cases), and seeded random larger cases '
     '(thorough: n <= 40, <= 5 generations, nesting depth 3). non-trivial = some checkpoint '
     'strictly inside the stream; distinct = the tuple itself; cases with >= 2 checkpoints '
@@ -127,9 +134,16 @@ def _sample(ctx, case, nontrivial):
     ctx.sample(case)
 
 
+WITNESSES_PER_CLASS = 3
+
+
 def _viol(ctx, kind, case, detail, mechanism):
+  """Counts every violation; keeps a few literal witnesses per class and chunk."""
   ctx.count('viol:' + str(mechanism))
-  ctx.violation(kind, case, detail, mechanism=mechanism)
+  seen = ctx.__dict__.setdefault('_c10_seen', {})
+  seen[(kind, mechanism)] = seen.get((kind, mechanism), 0) + 1
+  if seen[(kind, mechanism)] <= WITNESSES_PER_CLASS:
+    ctx.violation(kind, case, detail, mechanism=mechanism)
 
 
 # ---------------------------------------------------------------------------
@@ -536,6 +550,8 @@ def check_double_restore_case(ctx, case):
   cfg, shape, aggmode, c = case['src'], case['shape'], case['agg'], case['cut']
   xs = L.model_stream(cfg)
   meanvar = aggmode == 'meanvar'
+  if meanvar and not xs:
+    return  # the mean of an empty series is NaN; nothing to compare
   try:
     _, cur = L.build_source(cfg)
     p = _meanvar_pipeline(cur) if meanvar else L.build_pipeline(shape, cur, aggmode)
@@ -581,18 +597,25 @@ def check_double_restore_case(ctx, case):
     if n_ok and agg_ok:
       continue
     inplace = aggmode in ('inplace', 'meanvar')
-    if which == 2 and n_ok and inplace and results[0][1] == agg:
-      # the checkpoint object now holds the FINAL state of the first restored run
-      # (its state objects were updated in place); the second run adds the
-      # remaining elements once more.
-      mech = K_ALIAS
-    elif which == 2 and n_ok and inplace:
-      dup = (agg[0] == agg0[0] + 2 * len(rest)) if meanvar else (
-          agg == L.model_pipeline(shape, xs + xs[c:])[1])
-      mech = K_ALIAS if dup else f'pipeline-double-restore-{which}-aggregate-differs'
-    else:
-      mech = (f'pipeline-double-restore-{which}-'
-              + ('aggregate-differs' if n_ok else 'elements-differ'))
+    mech = (f'pipeline-double-restore-{which}-'
+            + ('aggregate-differs' if n_ok else 'elements-differ'))
+    if which == 2 and n_ok and inplace:
+      # Signature of aliasing: the checkpoint's state objects were updated in
+      # place by the first restored run, so the second run counts the elements
+      # after the cut once more (keys created after the cut are not affected).
+      if meanvar:
+        dup = agg[0] == agg0[0] + 2 * len(rest)
+      else:
+        after = L.model_pipeline(shape, xs[c:])[1] or {}
+        dup = True
+        for k in set(agg0) | set(agg):
+          if agg.get(k) == agg0.get(k):
+            continue
+          a0, af = agg0.get(k, [0, 0, 0]), after.get(k, [0, 0, 0])
+          dup = dup and agg.get(k) == [a0[0] + af[0], a0[1] + af[1],
+                                       a0[2] ^ af[2]]
+      if dup:
+        mech = K_ALIAS
     _viol(ctx, 'double_restore', case,
           {'restore': which, 'delivered_before': len(before),
            'delivered_after': len(rest), 'agg': agg, 'want_agg': agg0}, mech)
@@ -1076,7 +1099,17 @@ def plan(tier, seed):
   for j in range(nrand):
     specs.append({'mode': 'random', 'index': j, 'rseed': seed,
                   'count': 1500 if not thorough else 60000})
-  return specs
+  # One chunk of every mode first, so that the first recorded witnesses (and the
+  # replay files the runner writes) cover every part; then the heavy ones.
+  first, rest, seen_modes = [], [], set()
+  for sp in sorted(specs, key=lambda sp: sp['mode'] != 'pipe'):
+    if sp['mode'] in seen_modes:
+      rest.append(sp)
+    else:
+      seen_modes.add(sp['mode'])
+      first.append(sp)
+  rest.sort(key=lambda sp: sp['mode'] not in ('src', 'random'))
+  return first + rest
 
 
 def _run_random(ctx, spec):
@@ -1132,11 +1165,12 @@ def run_chunk(ctx, spec):
       cases = pipe_cases_for(cfg, mk, max_g, item['shape'])
       for case in cases:
         check_pipe_case(ctx, case)
-      if cases and not cfg.get('fail') and not mk:
+      if (cases and not cfg.get('fail') and not mk
+          and not L.upstream_agg_keys(item['shape'])):
         length = len(L.model_stream(cfg))
         modes = ['inplace', 'functional']
-        if item['shape'] == 'single':
-          modes.append('meanvar')
+        if item['shape'] == 'single' and length:
+          modes.append('meanvar')  # non-empty streams only (mean of nothing = NaN)
         for aggmode in modes:
           for c in sorted({0, 1, length // 2, length}):
             if c <= length:
